@@ -190,7 +190,20 @@ def run(program, rep, tier):
                 return env[n.id]
             vs = assigns.get(n.id, [])
             if len(vs) == 1:
-                return _ev(vs[0], sc, env)
+                v0 = vs[0]
+                one_shot = isinstance(v0, ast.GeneratorExp) or (
+                    isinstance(v0, ast.Call) and (dotted(v0.func) or ''
+                                                  ).split('.')[-1] in (
+                        'chain', 'map', 'filter', 'zip', 'iter', 'islice',
+                        'filterfalse'))
+                if one_shot:
+                    # an iterator: whoever reads it first uses it up
+                    uses = sorted((x.lineno, x.col_offset) for x in ast.walk(
+                        g.node) if isinstance(x, ast.Name) and x.id == n.id
+                        and isinstance(x.ctx, ast.Load))
+                    if uses and (n.lineno, n.col_offset) != uses[0]:
+                        return []
+                return _ev(v0, sc, env)
             raise _NoEval(n.id)
         t = norm(n)
         if t in ('self.handles', 'self.handles.keys()'):
@@ -219,6 +232,9 @@ def run(program, rep, tier):
                 return len(_ev(n.args[0], sc, env))
             if d in ('any', 'all') and len(n.args) == 1:
                 return (any if d == 'any' else all)(_ev(n.args[0], sc, env))
+            if d == 'map' and len(n.args) == 2 and norm(n.args[0]) \
+                    == 'str.isidentifier':
+                return [bool(x) for x in _ev(n.args[1], sc, env)]
             if d == 'filter' and len(n.args) == 2:
                 f_, seq = n.args
                 seq = _ev(seq, sc, env)
